@@ -16,13 +16,14 @@ Tasks == TasksOf(nt)
 
 Init == /\ nt \in Layouts /\ cur = 1 /\ cdone = 0
         /\ state = [t \in TasksOf(nt) |-> "idle"]
-TaskStart(t) == t[1] = cur /\ state[t] = "idle" /\ state' = [state EXCEPT ![t] = "run"] /\ UNCHANGED <<nt, cur, cdone>>
-TaskEnd(t) == state[t] = "run" /\ state' = [state EXCEPT ![t] = "done"] /\ UNCHANGED <<nt, cur, cdone>>
+TaskStart(t) == t \in Tasks /\ t[1] = cur /\ state[t] = "idle" /\ state' = [state EXCEPT ![t] = "run"] /\ UNCHANGED <<nt, cur, cdone>>
+TaskEnd(t) == t \in Tasks /\ state[t] = "run" /\ state' = [state EXCEPT ![t] = "done"] /\ UNCHANGED <<nt, cur, cdone>>
 PoolDone == /\ cur <= NP /\ \A t \in Tasks : t[1] = cur => state[t] = "done"
             /\ cur' = cur + 1 /\ UNCHANGED <<nt, state, cdone>>
 CompoundDone == cur = NP + 1 /\ cdone = 0 /\ cdone' = 1 /\ UNCHANGED <<nt, cur, state>>
 Finished == cdone = 1 /\ UNCHANGED vars
-Next == (\E t \in Tasks : TaskStart(t) \/ TaskEnd(t)) \/ PoolDone \/ CompoundDone \/ Finished
+AnyTask == (1..6) \X (1..3)         \* constant superset (per-action coverage); Layouts have at most 6 members
+Next == (\E t \in AnyTask : TaskStart(t)) \/ (\E t \in AnyTask : TaskEnd(t)) \/ PoolDone \/ CompoundDone \/ Finished
 Spec == Init /\ [][Next]_vars
 
 \* the property
